@@ -17,7 +17,7 @@ RULE = ('cases = PELs whose optional sections are user-data / extended-user-data
         '(JSON documents, text lines, random bytes, boundary lengths); non-trivial = at least one UD/ED section; distinct by bytes')
 FIX = {'x1111': ('echo',), 'x2222': ('raises', 'boom: "q" {x}'), 'x3333': ('none',), 'x4444': ('text', 'not json at all'),
        'x5555': ('text', '[1, 2, {"a": null}]'), 'x6666': ('text', '{"Section Version": "overwritten", "New": [1]}'), 'o1111': ('echo',), 'b2222': ('raises', 'err'),
-       'x8888': ('import_raises', 'cannot load: "f" {z}'), 'x5a5a': ('raises', ''), 'x6b6b': ('release_raises', 'done with the view'), 'x6c6c': ('release_none',), 'o8888': ('import_raises', 'no data file')}
+       'x8888': ('import_raises', 'cannot load: "f" {z}'), 'x5a5a': ('raises', ''), 'x7e7e': ('text', '{"n\u00e9": ["caf\u00e9 \U0001F600", "\u20ac"]}'), 'x6b6b': ('release_raises', 'done with the view'), 'x6c6c': ('release_none',), 'o8888': ('import_raises', 'no data file')}
 
 
 def sec_entries(doc):
@@ -67,6 +67,14 @@ def run(tier, seed):
                 p['ph']['creator'] = ord('O')
                 p['sections'] = [{'kind': 'ud', 'hdr': dict(apel.gen_hdr(rng), comp=0x2000, sub=1), 'payload': js},
                                  {'kind': 'ed', 'hdr': dict(apel.gen_hdr(rng), comp=0x2000, sub=3), 'payload': txt, 'creator': ord('O'), 'resv1': 0, 'resv2': 0}]
+                pels.append(p)
+                designed.add(id(p))
+            if allow:
+                # designed: one log whose sections go to parser modules that raise, return nothing, cannot be loaded, and one that answers in non-ASCII text
+                p = apel.gen_pel(rng, max_sections=0)
+                p['ph']['creator'] = ord('x')
+                p['sections'] = [{'kind': 'ud', 'hdr': dict(apel.gen_hdr(rng), comp=c_, sub=7), 'payload': b'payload %04x' % c_} for c_ in (0x3333, 0x2222, 0x8888, 0x7E7E, 0x1111)] + \
+                                [{'kind': 'ed', 'hdr': dict(apel.gen_hdr(rng), comp=0x3333, sub=9), 'payload': b'ed payload', 'creator': ord('x'), 'resv1': 0, 'resv2': 0}]
                 pels.append(p)
                 designed.add(id(p))
             replies = lean_batch([env.tokens()] + ['pelspec %s %s x' % (apel.tok_cfg(), apel.tok_pel(p)) for p in pels])[1:]
